@@ -2,6 +2,13 @@
 (* Trace validation (impl -> spec) for C12: every line recorded while the real                  *)
 (* `init_market_stream` chain consumed a scripted exchange must be a step of Reconnect.         *)
 (*   {"a":"Reset", mode, pol, script}     a new scenario: the input of the spec                 *)
+(*   {"a":"ResetWire", mode, pol, wire}   a new WIRE-LEVEL scenario: per connection the frames the   *)
+(*                                        loopback exchange sends; the spec's script is            *)
+(*                                        Wire!WireScript(wire) (every connection initialises, its *)
+(*                                        body = the frames after the first confirmation, in       *)
+(*                                        order); real clock, so every `at` is 0 (timing is not    *)
+(*                                        observed at the wire level) and the observation is cut   *)
+(*                                        after the last scripted connection's notice (Stop "cut") *)
 (*   {"a":"InitCall","at":t}              init was called at t (logged by the init closure)     *)
 (*   {"a":"Wait","at":t}                  init is called again after a failed call, at t: the   *)
 (*                                        back-off sleep is over                                *)
@@ -13,7 +20,7 @@
 (* back-off law; the instant of a delivery may be any t >= its availability (see Reconnect).    *)
 (* A line that is no step of the spec is recorded in `bad`; the rest of that scenario is        *)
 (* skipped (the log carries no state to resynchronise on).                                      *)
-EXTENDS Reconnect, Json, IOUtils
+EXTENDS Reconnect, Wire, Json, IOUtils
 
 Rec == ndJsonDeserialize(IOEnv.TRACE)
 
@@ -37,6 +44,17 @@ TReset == /\ R.a = "Reset"
           /\ rej' = FALSE
           /\ UNCHANGED bad
 
+TResetWire == /\ R.a = "ResetWire"
+              /\ script' = WireScript(R.wire) /\ policy' = R.pol /\ mode' = R.mode
+              /\ phase' = "Init" /\ pos' = 0 /\ k' = 0
+              /\ cur' = R.pol.b0 /\ fails' = 0
+              /\ now' = 0 /\ wake' = 0
+              /\ out' = <<>> /\ calls' = <<>> /\ waits' = <<>>
+              /\ rej' = FALSE
+              /\ UNCHANGED bad
+
+IsReset == R.a \in {"Reset", "ResetWire"}
+
 TCall == /\ R.a = "InitCall" /\ R.at = now
          /\ (FirstInitFail \/ InitOk \/ InitFail \/ InitPend)
 
@@ -54,23 +72,24 @@ TEmit == /\ R.a = "Emit"
 TStop == /\ R.a = "Stop"
          /\ \/ R.k = "quiet" /\ phase = "Pend"
             \/ R.k = "nostream" /\ phase = "NoStream"
+            \/ R.k = "cut" /\ phase = "Init" /\ pos = Len(script)    \* everything scripted was delivered
          /\ UNCHANGED vars
 
 Accept == (TCall \/ TWait \/ TEmit \/ TStop) /\ UNCHANGED <<l, bad, rej>>
 
-TStepOK  == /\ ~rej /\ R.a # "Reset"
+TStepOK  == /\ ~rej /\ ~IsReset
             /\ (TCall \/ TWait \/ TEmit \/ TStop)
             /\ UNCHANGED <<bad, rej>>
-TStepBad == /\ ~rej /\ R.a # "Reset"
+TStepBad == /\ ~rej /\ ~IsReset
             /\ ~ENABLED Accept
             /\ bad' = Append(bad, l) /\ rej' = TRUE
             /\ UNCHANGED vars
-TSkip    == /\ rej /\ R.a # "Reset"
+TSkip    == /\ rej /\ ~IsReset
             /\ UNCHANGED <<vars, bad, rej>>
 
 TNext == /\ l <= Len(Rec)
          /\ l' = l + 1
-         /\ (TReset \/ TStepOK \/ TStepBad \/ TSkip)
+         /\ (TReset \/ TResetWire \/ TStepOK \/ TStepBad \/ TSkip)
 
 TSpec == TInit /\ [][TNext]_tvars
 
